@@ -31,13 +31,15 @@ TOL = 1e-12
 EPS53 = 2.0 ** -53
 CHUNK = 32
 
-I1D = [(0.0, 1.0), (2.0, 5.0), (-1.0, 3.0), (10.0, 10.5), (0.0, 1e-4), (0.0, 1e3), (-2.0, -2.0 + 1e-4), (100.0, 1100.0)]
-BOX2 = [(0.0, 1.0, 0.0, 1.0), (2.0, 5.0, -1.0, 3.0), (-1.0, 3.0, 10.0, 10.5), (0.0, 1e-4, 0.0, 1e-4), (0.0, 1e3, 0.0, 1e3),
+# every alphabet contains translates with bitwise identical side lengths directly after their originals (same scheme object,
+# same sizes, other origin: anything a scheme remembers about 'the box' must depend on the origin too)
+I1D = [(0.0, 1.0), (5.0, 6.0), (2.0, 5.0), (-7.0, -4.0), (-1.0, 3.0), (10.0, 10.5), (0.0, 1e-4), (0.0, 1e3), (-2.0, -2.0 + 1e-4), (100.0, 1100.0)]
+BOX2 = [(0.0, 1.0, 0.0, 1.0), (3.0, 4.0, -2.0, -1.0), (2.0, 5.0, -1.0, 3.0), (-4.0, -1.0, 6.0, 10.0), (-1.0, 3.0, 10.0, 10.5), (0.0, 1e-4, 0.0, 1e-4), (0.0, 1e3, 0.0, 1e3),
         (-2.0, -2.0 + 1e-4, 100.0, 1100.0)]
 SQ2 = [(a, b, a, b) for a, b in I1D]
-BOX3 = [(0.0, 1.0, 0.0, 1.0, 0.0, 1.0), (2.0, 5.0, -1.0, 3.0, 10.0, 10.5), (0.0, 1e-4, 0.0, 1e-4, 0.0, 1e-4),
+BOX3 = [(0.0, 1.0, 0.0, 1.0, 0.0, 1.0), (1.0, 2.0, -3.0, -2.0, 4.0, 5.0), (2.0, 5.0, -1.0, 3.0, 10.0, 10.5), (3.0, 6.0, 0.0, 4.0, 20.0, 20.5), (0.0, 1e-4, 0.0, 1e-4, 0.0, 1e-4),
         (0.0, 1e3, 0.0, 1e3, 0.0, 1e3), (-2.0, -2.0 + 1e-4, 100.0, 1100.0, 0.0, 1e-4)]
-SQ3 = [(0.0, 1.0, 0.0, 1.0, 0.0, 1.0), (2.0, 5.0, 2.0, 5.0, 10.0, 10.5), (-1.0, 3.0, -1.0, 3.0, 0.0, 1e3),
+SQ3 = [(0.0, 1.0, 0.0, 1.0, 0.0, 1.0), (2.0, 3.0, 2.0, 3.0, -6.0, -5.0), (2.0, 5.0, 2.0, 5.0, 10.0, 10.5), (-9.0, -6.0, -9.0, -6.0, 1.0, 1.5), (-1.0, 3.0, -1.0, 3.0, 0.0, 1e3),
        (0.0, 1e-4, 0.0, 1e-4, -1.0, 3.0), (0.0, 1e3, 0.0, 1e3, 0.0, 1e-4), (-2.0, -2.0 + 1e-4, -2.0, -2.0 + 1e-4, 2.0, 5.0)]
 WORDS2 = ['', 'x', 'y', 'xx', 'xy', 'yx', 'yy']
 WORDS3 = [''] + list('xyz') + [a + b for a in 'xyz' for b in 'xyz'] + ['xyz']
